@@ -181,6 +181,45 @@ def default_equal_other_type(cfg):
   return False
 
 
+def unshared_argument_equal_to_default_object_of_two_parameters(cfg):
+  """The one input shape for which the unchanged with_defaults_trimmed is known not to preserve
+  sharing: an argument holding the user's OWN (referenced once) list / dict that is == to the
+  parameter's default, where that default OBJECT is also the default of another parameter of the
+  same callable (def f(a=SHARED, b=SHARED)). Trimming lets a fall back to the object b uses."""
+  refs = {}
+
+  def count(x, seen):
+    if isinstance(x, (list, dict, set)):
+      refs[id(x)] = refs.get(id(x), 0) + 1
+    if id(x) in seen:
+      return
+    seen.add(id(x))
+    if isinstance(x, fdl.Buildable):
+      for v in x.__arguments__.values():
+        count(v, seen)
+    elif isinstance(x, (list, tuple, set)):
+      for v in x:
+        count(v, seen)
+    elif isinstance(x, dict):
+      for v in x.values():
+        count(v, seen)
+  count(cfg, set())
+  for b in C.identity_objects(cfg, include_internals=False).get('buildable', {}).values():
+    try:
+      ps = inspect.signature(b.__fn_or_cls__).parameters
+    except (TypeError, ValueError):
+      continue
+    for k, v in b.__arguments__.items():
+      p = ps.get(k) if isinstance(k, str) else None
+      if p is None or not isinstance(p.default, (list, dict, set)) or type(v) is not type(p.default):
+        continue
+      if v is p.default or v != p.default or refs.get(id(v), 0) != 1:
+        continue
+      if any(q.default is p.default for name, q in ps.items() if name != k):
+        return True
+  return False
+
+
 def run_main(spec, acc):
   for _, rng in acc.cases(spec):
     opts = gen.Opts(max_nodes=rng.choice([3, 6, 10]), max_depth=4, p_share=0.3, p_clone=0.1,
@@ -249,6 +288,7 @@ def run_main(spec, acc):
     base_exact = C.canon(cfg, 'cfg-exact')
     base_defaults = C.canon(cfg, 'cfg-defaults')
     odd_default = default_equal_other_type(cfg)
+    own_copy_of_twice_used_default = unshared_argument_equal_to_default_object_of_two_parameters(cfg)
 
     def witness(**kw):
       d = {'config': sketch, 'features': sorted(feats)}
@@ -280,7 +320,9 @@ def run_main(spec, acc):
       if got_build != base_build:
         if base_build[0] == 'ok' and got_build[0] == 'ok':
           why = 'default-equal-but-different-type' if odd_default and name in (
-              'with_defaults_trimmed', 'with_defaults_trimmed(deep)', 'replace_unconfigured_partials') else 'other'
+              'with_defaults_trimmed', 'with_defaults_trimmed(deep)', 'replace_unconfigured_partials') else (
+                  'own-copy-of-a-default-object-that-two-parameters-share'
+                  if own_copy_of_twice_used_default and name.startswith('with_defaults_trimmed') else 'other')
           acc.violation(f'built-differs:{name}:{why}',
                         f'build({name}(c)) is not isomorphic to build(c)',
                         witness(transform=name, after=safe_repr(out, 300)))
@@ -295,10 +337,16 @@ def run_main(spec, acc):
         except Exception as e:  # pylint: disable=broad-except
           eq = None
           acc.violation(f'eq-raises-after:{name}:{type(e).__name__}', repr(e)[:200], witness(transform=name))
+        trims = name in ('with_defaults_trimmed', 'with_defaults_trimmed(deep)')
         if eq is False:
-          acc.violation(f'not-equal-to-original:{name}', f'{name}(c) == c is False', witness(transform=name))
+          acc.violation(f'not-equal-to-original:{name}' +
+                        (':own-copy-of-a-default-object-that-two-parameters-share'
+                         if trims and own_copy_of_twice_used_default else ''),
+                        f'{name}(c) == c is False', witness(transform=name))
         if C.canon(out, 'cfg-defaults') != base_defaults:
-          why = 'default-equal-but-different-type' if odd_default else 'other'
+          why = ('default-equal-but-different-type' if odd_default else
+                 'own-copy-of-a-default-object-that-two-parameters-share'
+                 if trims and own_copy_of_twice_used_default else 'other')
           acc.violation(f'canon-with-defaults-differs:{name}:{why}',
                         'configuration (defaults filled in) differs from the original',
                         witness(transform=name, after=safe_repr(out, 300)))
